@@ -111,6 +111,102 @@ fn with_rels(g: &Group, name: &str, rels: Vec<Vec<isize>>) -> Group {
     }
 }
 
+/// the Coxeter groups [3,3,3] = S5, [4,3,3] = B4 and [3,4,3] = F4 with the presentations the
+/// library computes as fundamental groups of the one-chamber 3D symbols
+/// `<1.1:1 3:1,1,1,1:3,3,3>`, `…:4,3,3>`, `…:3,4,3>` (four generators), each with a faithful
+/// permutation representation: S5 on 5 points, B4 on the 8 signed coordinates, F4 on its 24
+/// long roots (reflections in the simple roots).  The Lean side re-checks relators and order.
+fn coxeter_groups() -> Vec<Group> {
+    let cox = |m12: usize, m23: usize, m34: usize| -> Vec<Vec<isize>> {
+        let m = |i: usize, j: usize| -> usize {
+            match (i, j) {
+                (1, 2) => m12,
+                (2, 3) => m23,
+                (3, 4) => m34,
+                _ => 2,
+            }
+        };
+        let mut rels = vec![];
+        for i in 1..=4usize {
+            rels.push(vec![i as isize, i as isize]);
+            for j in i + 1..=4 {
+                let mut w = vec![];
+                for _ in 0..m(i, j) {
+                    w.push(i as isize);
+                    w.push(j as isize);
+                }
+                rels.push(w);
+            }
+        }
+        rels
+    };
+    let swap = |d: usize, pairs: &[(usize, usize)]| -> Vec<usize> {
+        let mut p: Vec<usize> = (0..d).collect();
+        for &(a, b) in pairs {
+            p.swap(a, b);
+        }
+        p
+    };
+    // F4: long roots in doubled coordinates, reflections in the simple roots
+    let mut roots: Vec<[i32; 4]> = vec![];
+    for i in 0..4 {
+        for j in i + 1..4 {
+            for si in [2, -2] {
+                for sj in [2, -2] {
+                    let mut v = [0; 4];
+                    v[i] = si;
+                    v[j] = sj;
+                    roots.push(v);
+                }
+            }
+        }
+    }
+    let simple: [[i32; 4]; 4] = [[0, 2, -2, 0], [0, 0, 2, -2], [0, 0, 0, 2], [1, -1, -1, -1]];
+    let f4: Vec<Vec<usize>> = simple
+        .iter()
+        .map(|a| {
+            let aa: i32 = a.iter().map(|x| x * x).sum();
+            roots
+                .iter()
+                .map(|v| {
+                    let va: i32 = (0..4).map(|i| v[i] * a[i]).sum();
+                    let mut r = [0; 4];
+                    for i in 0..4 {
+                        r[i] = v[i] - 2 * va * a[i] / aa;
+                    }
+                    roots.iter().position(|x| *x == r).expect("root system closed")
+                })
+                .collect()
+        })
+        .collect();
+    vec![
+        Group {
+            name: "pi1-[3,3,3]-S5".to_string(),
+            quick: true,
+            order: 120,
+            nr_gens: 4,
+            degree: 5,
+            rels: cox(3, 3, 3),
+            perms: vec![swap(5, &[(0, 1)]), swap(5, &[(1, 2)]), swap(5, &[(2, 3)]), swap(5, &[(3, 4)])],
+        },
+        Group {
+            name: "pi1-[4,3,3]-B4".to_string(),
+            quick: true,
+            order: 384,
+            nr_gens: 4,
+            degree: 8,
+            rels: cox(4, 3, 3),
+            perms: vec![
+                swap(8, &[(0, 4)]),
+                swap(8, &[(0, 1), (4, 5)]),
+                swap(8, &[(1, 2), (5, 6)]),
+                swap(8, &[(2, 3), (6, 7)]),
+            ],
+        },
+        Group { name: "pi1-[3,4,3]-F4".to_string(), quick: true, order: 1152, nr_gens: 4, degree: 24, rels: cox(3, 4, 3), perms: f4 },
+    ]
+}
+
 fn main() {
     let mut ctx = Ctx::from_args();
     let th = ctx.thorough();
@@ -136,6 +232,45 @@ fn main() {
     cases(&mut ctx, by_name("T233"), &[vec![1, 2, -1, -1, 2]], "regress");
     // D12: a coincidence kills row 0, compact() numbered the base coset 1
     cases(&mut ctx, by_name("T232"), &[vec![-1, -2, 1, 1, -2]], "regress");
+
+    // C05-m6 (round-3 seeded change: the closing pass of coset_table stopped at the NUMBER of
+    // live rows): S5 as the fundamental group of <1.1:1 3:1,1,1,1:3,3,3>, H = S5
+    let cox = coxeter_groups();
+    cases(&mut ctx, &cox[0], &[vec![-1], vec![3, 2, -4, -3, 2]], "regress");
+
+    // (6) many generators, many subgroup generators: coincidences in the main loop leave dead
+    //     rows below live ones before the closing pass — 1-5 words of length 1-8 over the three
+    //     four-generator Coxeter groups and over every corpus group
+    {
+        let mut rng = ctx.rng(1190);
+        for (ci, g) in cox.iter().enumerate() {
+            // the 4-simplex group is where the closing pass matters most often (about one
+            // input in 750 for the C05-m6 change), and its cases are the cheapest
+            let ncox = match (ci, th) {
+                (0, false) => 3000,
+                (0, true) => 10000,
+                (_, false) => 300,
+                (_, true) => 3000,
+            };
+            cases(&mut ctx, g, &[], "none");
+            for _ in 0..ncox {
+                let k = 1 + rng.below(5);
+                let subs: Vec<Vec<isize>> = (0..k).map(|_| random_word(&mut rng, g.nr_gens, 8)).collect();
+                cases(&mut ctx, g, &subs, "many-generators");
+            }
+        }
+        let ncorp = if th { 200 } else { 30 };
+        for g in groups.iter() {
+            if !th && !g.quick {
+                continue;
+            }
+            for _ in 0..ncorp {
+                let k = 1 + rng.below(5);
+                let subs: Vec<Vec<isize>> = (0..k).map(|_| random_word(&mut rng, g.nr_gens, 8)).collect();
+                cases(&mut ctx, g, &subs, "many-generators");
+            }
+        }
+    }
 
     for (gi, g) in groups.iter().enumerate() {
         if !th && !g.quick {
